@@ -151,6 +151,7 @@ def oerr : String → Go.Err
   | "did/15:key-type" => some "did/15"
   | "did/10:pubkey" => some "did/10"
   | "did/9:sig" => some "did/9"
+  | "did/12:seq-exhausted" => some "did/12"
   | "did/13:deactivated" => some "did/13"
   | "did/2:exists" => some "did/2"
   | "did/5:not-found" => some "did/5"
@@ -228,7 +229,11 @@ theorem verifyOwnership_refines (crypto : Go.SigScheme) (signData : didtypes.DID
           toCrypto]
         by_cases hs : crypto.verify (Did.b58Decode gvm.PublicKeyBase58) (Did.signBytes (Go.Proto.marshal signData) seq) sig = true
         · simp only [hs, if_true, Bool.not_true, Bool.false_eq_true, if_false]
-          rfl
+          have hu : Go.u64add seq 1 = Did.nextSeq seq := rfl
+          rw [hu]
+          by_cases hz : Did.nextSeq seq = 0
+          · simp only [hz, decide_true, if_true]; rfl
+          · simp only [hz, decide_false, Bool.false_eq_true, if_false]; rfl
         · have hs' : crypto.verify (Did.b58Decode gvm.PublicKeyBase58) (Did.signBytes (Go.Proto.marshal signData) seq) sig = false := by
             cases hh : crypto.verify (Did.b58Decode gvm.PublicKeyBase58) (Did.signBytes (Go.Proto.marshal signData) seq) sig <;> simp_all
           simp only [hs', Bool.false_eq_true, if_false, Bool.not_false, if_true]
@@ -242,7 +247,8 @@ theorem verifyOwnership_refines (crypto : Go.SigScheme) (signData : didtypes.DID
 theorem verifyOwnership_cases (cr : Did.Crypto) (data : Bytes) (seq : Nat) (doc : Did.Doc) (vmID sig : Bytes) :
     (∃ n, Did.verifyOwnership cr data seq doc vmID sig = .ok n) ∨
     (∃ c, Did.verifyOwnership cr data seq doc vmID sig = .err c ∧
-      (c = "did/8:vm-not-found" ∨ c = "did/15:key-type" ∨ c = "did/10:pubkey" ∨ c = "did/9:sig")) := by
+      (c = "did/8:vm-not-found" ∨ c = "did/15:key-type" ∨ c = "did/10:pubkey" ∨ c = "did/9:sig" ∨
+        c = "did/12:seq-exhausted")) := by
   unfold Did.verifyOwnership
   cases Did.vmFrom doc doc.auths vmID with
   | none => exact Or.inr ⟨_, rfl, Or.inl rfl⟩
@@ -255,8 +261,11 @@ theorem verifyOwnership_cases (cr : Did.Crypto) (data : Bytes) (seq : Nat) (doc 
       · rw [if_pos h2]; exact Or.inr ⟨_, rfl, Or.inr (Or.inr (Or.inl rfl))⟩
       · rw [if_neg h2]
         by_cases h3 : cr.verify (Did.b58Decode vm.pubKeyB58) (Did.signBytes data seq) sig = true
-        · rw [if_pos h3]; exact Or.inl ⟨_, rfl⟩
-        · rw [if_neg h3]; exact Or.inr ⟨_, rfl, Or.inr (Or.inr (Or.inr rfl))⟩
+        · rw [if_pos h3]
+          by_cases h4 : Did.nextSeq seq = 0
+          · rw [if_pos h4]; exact Or.inr ⟨_, rfl, Or.inr (Or.inr (Or.inr (Or.inr rfl)))⟩
+          · rw [if_neg h4]; exact Or.inl ⟨_, rfl⟩
+        · rw [if_neg h3]; exact Or.inr ⟨_, rfl, Or.inr (Or.inr (Or.inr (Or.inl rfl)))⟩
 
 /-! ## the registry: raw store and abstraction -/
 
@@ -422,7 +431,7 @@ theorem createDID_refines (crypto : Go.SigScheme) (cf : CodecFacts) (w : World) 
       · rw [abs_set w hwf]; rfl
       · exact wfd_set w hwf cf _ _ (by intro d' hd'; simp only at hd'; cases hd'; exact hn)
     · simp only [hv, ownRes, Outcome.err_bind, SimD]
-      rcases hc with rfl | rfl | rfl | rfl <;> rfl
+      rcases hc with rfl | rfl | rfl | rfl | rfl <;> rfl
   · -- something is stored under the DID: a live document or a tombstone
     obtain ⟨sd, hsd⟩ := isEmpty_some_doc (x := readD w m.Did) (by rw [read_abs]; exact he)
     have hdead := deactivatedWS_run (readD w m.Did) sd hsd
@@ -460,7 +469,7 @@ theorem updateDID_refines (crypto : Go.SigScheme) (cf : CodecFacts) (w : World) 
         · rw [abs_set w hwf]; rfl
         · exact wfd_set w hwf cf _ _ (by intro d' hd'; simp only at hd'; cases hd'; exact hn)
       · simp only [hv, ownRes, Outcome.err_bind, SimD]
-        rcases hc with rfl | rfl | rfl | rfl <;> rfl
+        rcases hc with rfl | rfl | rfl | rfl | rfl <;> rfl
 
 theorem toDoc_default : toDoc (default : didtypes.DIDDocument) = Did.emptyDoc := rfl
 
@@ -500,7 +509,7 @@ theorem deactivateDID_refines (crypto : Go.SigScheme) (cf : CodecFacts) (w : Wor
           simp only [Option.map_some, toDoc_default, cf.zeroDoc]
         · exact wfd_set w hwf cf _ _ (by intro d' hd'; simp only at hd'; cases hd'; exact noNil_default)
       · simp only [hv, ownRes, Outcome.err_bind, SimD]
-        rcases hc with rfl | rfl | rfl | rfl <;> rfl
+        rcases hc with rfl | rfl | rfl | rfl | rfl <;> rfl
 
 end registry
 
